@@ -194,5 +194,166 @@ example : promptParse "OvEr".toList = some "override".toList ∧ promptParse "c"
     promptParse "S".toList = some "stop".toList ∧ promptParse "stopp".toList = none ∧ promptParse "x".toList = none := by
   decide
 
+/-- **override, through both passes** (name mode, link-free tree): one selected file whose generated name is
+    taken by another, unselected, leaf.  Under `--conflict-override` the first pass defers the rename, the retry
+    meets the conflict again, the resolution renames with override: the run exits 0, reports the rename with the
+    override marker, and the destination path now holds the SOURCE's entry (identity and content); the entry that
+    was there is gone and every other entry is where it was. -/
+theorem override_run_replaces (base : FS) (hw : WF base) (hl : LinkFree base) (f : FileRec) (p : PurePath)
+    (answers : List Answer) (hG : C05.NameCall base f.inputDir f.rel p)
+    (hsrc : lexists base (absKey f.inputDir f.rel) = true) (hdst : lexists base (absKey f.inputDir p) = true) :
+    (execute realNameRenamer { fs := base } [f] (fun _ => .path p) .override answers).2.exitStatus = 0 ∧
+    (execute realNameRenamer { fs := base } [f] (fun _ => .path p) .override answers).1.events =
+      [{ dir := f.inputDir, src := f.rel, dst := p, override := true }] ∧
+    ∃ ea, base.find (absKey f.inputDir f.rel) = some ea ∧
+      ∀ e', e' ∈ (execute realNameRenamer { fs := base } [f] (fun _ => .path p) .override answers).1.st.fs ↔
+        (e' = { ea with path := absKey f.inputDir p } ∨
+          (e' ∈ base ∧ e'.path ≠ absKey f.inputDir f.rel ∧ e'.path ≠ absKey f.inputDir p)) := by
+  obtain ⟨fdir, frel⟩ := f
+  dsimp only at hG hsrc hdst ⊢
+  obtain ⟨hcont, hne⟩ := C02.nameCall_contained base hl fdir frel p hG
+  -- a call without override meets the existing destination
+  have hrefuse : fileRenamer { fs := base } fdir frel p false = ({ fs := base }, some .destExists) := by
+    obtain ⟨sp, n, m, hs, hd, hnm, hn, hm, hsp, hanc, hna, hnb⟩ := hG
+    subst hs; subst hd
+    have hplain : ∀ c ∈ sp ++ [m], c ≠ dotdot := by
+      intro c hc
+      rw [List.mem_append, List.mem_singleton] at hc
+      rcases hc with hc | hc
+      · exact hsp c hc
+      · rw [hc]; exact hm
+    have hwalk : walkPath base fdir ⟨false, sp ++ [m]⟩ = .ok (fdir ++ sp ++ [m]) := by
+      unfold walkPath
+      simp only [Bool.false_eq_true, if_false]
+      rw [walk_plain hl (sp ++ [m]) fdir hplain]
+      · simp
+      · intro k hk
+        have hk' : k ≤ sp.length := by simp at hk; omega
+        rw [C05.take_append_le sp m k hk']
+        exact hanc k hk'
+    have hkey : absKey fdir ⟨false, sp ++ [m]⟩ = fdir ++ sp ++ [m] := by
+      unfold absKey
+      simp only [Bool.false_eq_true, if_false]
+      rw [lexNorm_plain _ _ hplain]; simp
+    rw [hkey] at hdst
+    unfold fileRenamer
+    have : lexistsRel base fdir ⟨false, sp ++ [m]⟩ = true := by
+      unfold lexistsRel; rw [hwalk]; exact hdst
+    show (if (!false && lexistsRel base fdir ⟨false, sp ++ [m]⟩) = true then _ else _) = _
+    rw [this]; rfl
+  -- the overriding call succeeds and moves exactly the source
+  obtain ⟨hok, _, _, _, _⟩ := C02.name_call_step_ov { fs := base } hw hl rfl fdir frel p true hG hsrc (Or.inl rfl)
+  obtain ⟨ea, hfa, _, hmem⟩ := C02.name_call_effect { fs := base } hw hl rfl fdir frel p true hG hok
+  have hcall_false : ∀ (r : Run RealState), r.st = { fs := base } →
+      r.call realNameRenamer fdir frel p false =
+        ({ r with calls := r.calls ++ [(fdir, frel, p, false)] }, some .destExists) := by
+    intro r hr
+    unfold Run.call
+    have hc : realNameRenamer.call r.st fdir frel p false = ({ fs := base }, some .destExists) := by
+      rw [hr]; exact hrefuse
+    simp only [hc]
+    cases r
+    simp_all
+  have hex : execute realNameRenamer { fs := base } [⟨fdir, frel⟩] (fun _ => .path p) .override answers =
+      ({ st := (fileRenamer { fs := base } fdir frel p true).1,
+         events := [{ dir := fdir, src := frel, dst := p, override := true }],
+         calls := [(fdir, frel, p, false), (fdir, frel, p, false), (fdir, frel, p, true)] }, .done) := by
+    unfold execute
+    simp only [firstPass, hne, if_false]
+    have hview : realNameRenamer.view ({ fs := base } : RealState) = base := rfl
+    rw [hview, hcont]
+    simp only
+    rw [hcall_false { st := { fs := base } } rfl]
+    simp only [RenErr.isFileExists, if_true, firstPass, List.nil_append, List.reverse_cons, List.reverse_nil, secondPass]
+    rw [hcall_false _ rfl]
+    simp only [RenErr.isFileExists, if_true, resolveConflict]
+    have hc : realNameRenamer.call ({ fs := base } : RealState) fdir frel p true =
+        ((fileRenamer { fs := base } fdir frel p true).1, none) := by
+      show fileRenamer { fs := base } fdir frel p true = _
+      rw [← hok]
+    simp only [Run.call, hc, List.nil_append, List.cons_append, secondPass]
+  rw [hex]
+  exact ⟨by show Outcome.done.exitStatus = 0; decide, rfl, ea, hfa, hmem⟩
+
+/-- **stop and ignore, through both passes**: the same single conflict.  Under `--conflict-stop` the run ends with
+    status 1, under `--conflict-ignore` with status 0; in both cases nothing is reported and the tree is the
+    initial tree (the renamer was called twice, both calls refused). -/
+theorem conflict_run_stop_ignore (base : FS) (hl : LinkFree base) (f : FileRec) (p : PurePath)
+    (answers : List Answer) (hG : C05.NameCall base f.inputDir f.rel p)
+    (hdst : lexists base (absKey f.inputDir p) = true) :
+    (execute realNameRenamer { fs := base } [f] (fun _ => .path p) .stop answers).2.exitStatus = 1 ∧
+    (execute realNameRenamer { fs := base } [f] (fun _ => .path p) .stop answers).1.events = [] ∧
+    (execute realNameRenamer { fs := base } [f] (fun _ => .path p) .stop answers).1.st.fs = base ∧
+    (execute realNameRenamer { fs := base } [f] (fun _ => .path p) .ignore answers).2.exitStatus = 0 ∧
+    (execute realNameRenamer { fs := base } [f] (fun _ => .path p) .ignore answers).1.events = [] ∧
+    (execute realNameRenamer { fs := base } [f] (fun _ => .path p) .ignore answers).1.st.fs = base := by
+  obtain ⟨fdir, frel⟩ := f
+  dsimp only at hG hdst ⊢
+  obtain ⟨hcont, hne⟩ := C02.nameCall_contained base hl fdir frel p hG
+  -- a call without override meets the existing destination
+  have hrefuse : fileRenamer { fs := base } fdir frel p false = ({ fs := base }, some .destExists) := by
+    obtain ⟨sp, n, m, hs, hd, hnm, hn, hm, hsp, hanc, hna, hnb⟩ := hG
+    subst hs; subst hd
+    have hplain : ∀ c ∈ sp ++ [m], c ≠ dotdot := by
+      intro c hc
+      rw [List.mem_append, List.mem_singleton] at hc
+      rcases hc with hc | hc
+      · exact hsp c hc
+      · rw [hc]; exact hm
+    have hwalk : walkPath base fdir ⟨false, sp ++ [m]⟩ = .ok (fdir ++ sp ++ [m]) := by
+      unfold walkPath
+      simp only [Bool.false_eq_true, if_false]
+      rw [walk_plain hl (sp ++ [m]) fdir hplain]
+      · simp
+      · intro k hk
+        have hk' : k ≤ sp.length := by simp at hk; omega
+        rw [C05.take_append_le sp m k hk']
+        exact hanc k hk'
+    have hkey : absKey fdir ⟨false, sp ++ [m]⟩ = fdir ++ sp ++ [m] := by
+      unfold absKey
+      simp only [Bool.false_eq_true, if_false]
+      rw [lexNorm_plain _ _ hplain]; simp
+    rw [hkey] at hdst
+    unfold fileRenamer
+    have : lexistsRel base fdir ⟨false, sp ++ [m]⟩ = true := by
+      unfold lexistsRel; rw [hwalk]; exact hdst
+    show (if (!false && lexistsRel base fdir ⟨false, sp ++ [m]⟩) = true then _ else _) = _
+    rw [this]; rfl
+  have hcall_false : ∀ (r : Run RealState), r.st = { fs := base } →
+      r.call realNameRenamer fdir frel p false =
+        ({ r with calls := r.calls ++ [(fdir, frel, p, false)] }, some .destExists) := by
+    intro r hr
+    unfold Run.call
+    have hc : realNameRenamer.call r.st fdir frel p false = ({ fs := base }, some .destExists) := by
+      rw [hr]; exact hrefuse
+    simp only [hc]
+    cases r
+    simp_all
+  have hview : realNameRenamer.view ({ fs := base } : RealState) = base := rfl
+  have hstop : execute realNameRenamer { fs := base } [⟨fdir, frel⟩] (fun _ => .path p) .stop answers =
+      ({ st := { fs := base }, events := [],
+         calls := [(fdir, frel, p, false), (fdir, frel, p, false)] }, .destExists) := by
+    unfold execute
+    simp only [firstPass, hne, if_false]
+    rw [hview, hcont]
+    simp only
+    rw [hcall_false { st := { fs := base } } rfl]
+    simp only [RenErr.isFileExists, if_true, firstPass, List.nil_append, List.reverse_cons, List.reverse_nil, secondPass]
+    rw [hcall_false _ rfl]
+    simp only [RenErr.isFileExists, if_true, resolveConflict, List.nil_append, List.cons_append]
+  have hign : execute realNameRenamer { fs := base } [⟨fdir, frel⟩] (fun _ => .path p) .ignore answers =
+      ({ st := { fs := base }, events := [],
+         calls := [(fdir, frel, p, false), (fdir, frel, p, false)] }, .done) := by
+    unfold execute
+    simp only [firstPass, hne, if_false]
+    rw [hview, hcont]
+    simp only
+    rw [hcall_false { st := { fs := base } } rfl]
+    simp only [RenErr.isFileExists, if_true, firstPass, List.nil_append, List.reverse_cons, List.reverse_nil, secondPass]
+    rw [hcall_false _ rfl]
+    simp only [RenErr.isFileExists, if_true, resolveConflict, List.nil_append, List.cons_append, secondPass]
+  rw [hstop, hign]
+  exact ⟨by show Outcome.destExists.exitStatus = 1; decide, rfl, rfl, by show Outcome.done.exitStatus = 0; decide, rfl, rfl⟩
+
 end C03
 end Tempren
